@@ -91,6 +91,23 @@ def check_deep(case, acc):
 
 
 def check_case(case, acc):
+    level = case.get("maxlevel") if isinstance(case, dict) else None
+    if isinstance(level, float) and level != int(level) and "read_as" not in case:
+        # a maxlevel that is not a whole number has no prescribed reading ('depth below maxlevel' vs. levels counted from 1):
+        # all five iterators - and every phase of the case - must follow ONE of the two
+        import math
+
+        first = None
+        for reading in (math.floor(level), math.ceil(level)):
+            try:
+                return _check_case(dict(case, read_as=reading), acc)
+            except Violation as exc:
+                first = first or exc
+        raise Violation(first.clause, "maxlevel=%r read as %d and as %d: %s" % (level, math.floor(level), math.ceil(level), first.detail))
+    return _check_case(case, acc)
+
+
+def _check_case(case, acc):
     if case.get("kind") == "deep":
         return check_deep(case, acc)
     if case.get("kind") == "very-deep":
@@ -128,7 +145,7 @@ def _make_waiting(case, tree):
 
 def _check_waiting(case, tree, waiting, stop_ids, hide_ids, what):
     start = tree[case["start"]]
-    admitted = refs.admitted_ids(start, stop_ids, case["maxlevel"])
+    admitted = refs.admitted_ids(start, stop_ids, case.get("read_as", case["maxlevel"]))
     groups = refs.restricted_groups(start, admitted, hide_ids)
     wants = [
         refs.restricted(refs.preorder(start), admitted, hide_ids),
@@ -161,7 +178,7 @@ def _once(case, acc, tree, labels):
     else:
         filter_ = None
 
-    admitted = refs.admitted_ids(start, stop_ids, maxlevel)
+    admitted = refs.admitted_ids(start, stop_ids, case.get("read_as", maxlevel))
     exp_pre = refs.restricted(refs.preorder(start), admitted, hide_ids)
     exp_post = refs.restricted(refs.postorder(start), admitted, hide_ids)
     exp_level = refs.restricted(refs.levelorder(start), admitted, hide_ids)
@@ -233,7 +250,8 @@ def _once(case, acc, tree, labels):
         raise Violation("no-mutation", "tree changed by iteration")
 
     # non-trivial: at least two restrictions actually remove something
-    no_stop = refs.admitted_ids(start, set(), maxlevel)
+    acc.tag("maxlevel_not_a_whole_number", "read_as" in case)
+    no_stop = refs.admitted_ids(start, set(), case.get("read_as", maxlevel))
     no_level = refs.admitted_ids(start, stop_ids, None)
     removes_stop = len(admitted) < len(no_stop)
     removes_level = len(admitted) < len(no_level)
@@ -271,7 +289,7 @@ def _enum_cases(max_nodes, index, count, min_nodes=1, root_only=False):
             for idx in sub[1:]:
                 depth[idx] = depth[parents[idx]] + 1
             height = max(depth.values())
-            maxlevels = [None, -1] + list(range(0, height + 3)) + [(True, 2 ** 63, 10 ** 30)[k % 3]]
+            maxlevels = [None, -1] + list(range(0, height + 3)) + [(True, 2 ** 63, 10 ** 30)[k % 3]] + [(0.5, 1.5, 2.5)[k % 3]]
             variant = 0
             for stop in shapes.subsets(sub):
                 for hide in shapes.subsets(sub):
@@ -297,7 +315,7 @@ def random_cases(draw):
     start = draw(st.one_of(st.just(0), st.just(0), st.integers(0, size - 1)))
     stop = draw(strategies.subsets_of(size, max_size=4))
     hide = draw(strategies.subsets_of(size))
-    maxlevel = draw(st.one_of(st.none(), st.integers(-1, 8), st.integers(-1, 8), st.sampled_from([True, 2 ** 31, 2 ** 63 - 1, 2 ** 63, 2 ** 64, 10 ** 30])))
+    maxlevel = draw(st.one_of(st.none(), st.integers(-1, 8), st.integers(-1, 8), st.sampled_from([True, 2 ** 31, 2 ** 63 - 1, 2 ** 63, 2 ** 64, 10 ** 30, 0.5, 1.5, 2.5, 3.5, 2.0])))
     return {
         "shape": shape,
         "start": start,
